@@ -41,6 +41,22 @@ Round 3 additions:
     for), otherwise UNDECIDED; an unusual common *source* (start value, link length, attached nodes) is never a violation,
     because the source is redundant (nodes without incoming links start at the 0 of the forward fold anyway).
 
+Round 4 additions:
+  * helpers of the reference tree moved between class and module level (`__connect` -> `_connect`, also under another name)
+    are new names for sa.normalize and get folded away; when the anchors are not found and reference functions are missing in
+    the module, the sources are parsed again with the new functions kept (first those with the bare name of a missing one,
+    then all new functions of the module); connect helper and passes may be module-level functions or static methods;
+  * the calculator constructor is the one whose object gets a method called (`_ImmutableTaskList(..)` in the entry is not);
+  * C12.leaf-arcs: work term `<C> if task.<attribute other than estimate/spent/children> else <work term>` (milestones given
+    zero length) -> REFUTED; `E - S if E > S else 0` and `0 if task.estimate is None else max(task.estimate - .., 0)` are
+    understood; the constructor's insert condition is judged as it reads without end date (`True if self.<end> is None else
+    ..`, `self.<end> is None or ..`), a remaining test of the task itself -> REFUTED;
+  * C12.passes: a dependency arc added only under a test of the predecessor's own link (`if link.units == 0: continue`) ->
+    REFUTED (the chain through that predecessor is cut), other conditions UNDECIDED; `for p in dict.fromkeys(param)`;
+  * C12.inherit: a return of WBS.critical_path that bypasses the calculator under a test that reads predecessors / successors
+    of the leaf tasks only -> REFUTED (dependencies declared on summaries are ignored); other bypasses stay UNDECIDED (C12.pure),
+    except the empty result for a WBS without tasks.
+
 Not decided: exactness of the longest-path result as a number (magnitude of the tolerance - a constant above 1e-3 is
 reported UNDECIDED -, float rounding inside the folds), "never empty when the WBS has a leaf" (follows from the clauses,
 not checked on its own), acyclicity handling (the property quantifies over acyclic WBSs), the end_date != None mode
@@ -81,7 +97,7 @@ class Roles:
         prog, cg = ctx.prog, ctx.cg
         self.ctx = ctx
         self.entry = prog.func(ENTRY)
-        ctor = [ci for ci in cg.calls_in(self.entry) if ci.kind == 'ctor' and ci.targets]
+        ctor = _calculator_ctors(cg, self.entry)
         if len(ctor) != 1:
             raise AnalysisError(f"{ENTRY} does not construct exactly one calculator object")
         self.ctor_call = ctor[0].node
@@ -93,7 +109,7 @@ class Roles:
             raise AnalysisError(f"{ENTRY} does not call exactly one method of {self.cls}")
         self.calc_call = calls[0].node
         self.calc = calls[0].targets[0]
-        ins = {t.qual: t for _, t in self.self_calls(self.init)}
+        ins = {t.qual: t for _, t in self.self_calls(self.init) if t.kind == 'method'}
         if len(ins) != 1:
             raise AnalysisError(f"{self.init.qual} does not call exactly one insert method")
         self.insert = next(iter(ins.values()))
@@ -122,8 +138,8 @@ class Roles:
             self.node_cls = next(iter(own))
         passes = []
         for c, t in self.self_calls(self.calc):
-            if t.kind == 'method' and t not in passes and t not in (self.connect, self.new_node, self.insert, self.add) \
-                    and _pass_field(t) is not None:
+            if t.kind in ('method', 'static', 'function') and t not in passes \
+                    and t not in (self.connect, self.new_node, self.insert, self.add) and _pass_field(t) is not None:
                 passes.append(t)
         if len(passes) != 2:
             raise AnalysisError(f"{self.calc.qual}: expected two passes storing a node field, found {[p.qual for p in passes]}")
@@ -134,7 +150,8 @@ class Roles:
         for ci in self.ctx.cg.calls_in(f):
             if ci.kind == 'call' and isinstance(ci.node, ast.Call):
                 for t in ci.targets:
-                    if t is not None and t.cls == self.cls and t.module is self.mod:
+                    # methods of the calculator, and private helpers that were moved to module level
+                    if t is not None and t.module is self.mod and (t.cls == self.cls or (t.cls is None and t.kind == 'function')):
                         out.append((ci.node, t))
         return out
 
@@ -150,6 +167,21 @@ def _subscript_stores(f: Func):
                 and isinstance(n.targets[0].value, ast.Attribute):
             out.append((n, n.targets[0].value, n.targets[0].slice, n.value))
     return out
+
+
+def _calculator_ctors(cg, entry: Func):
+    """constructor calls in the entry whose object gets a method called (the calculator), not result wrappers like
+    _ImmutableTaskList(..)"""
+    ctors = [ci for ci in cg.calls_in(entry) if ci.kind == 'ctor' and ci.targets]
+    used = {t.cls for ci in cg.calls_in(entry) if ci.kind == 'call' for t in ci.targets if t is not None and t.cls}
+    picked = [ci for ci in ctors if ci.targets[0].cls in used]
+    return picked if picked else ctors
+
+
+def _node_param(p: Func) -> Optional[str]:
+    """the node parameter of a pass: first parameter after self (methods) or the first one (static / module level)"""
+    i = 1 if p.kind in ('method', 'getter', 'setter') else 0
+    return p.params[i] if len(p.params) > i else None
 
 
 def _inline_fresh_nodes(R: 'Roles', f: Func) -> Dict[str, Tuple[ast.Call, Optional[str]]]:
@@ -195,6 +227,8 @@ def _param_loops(ctx, f: Func) -> List[Tuple[ast.For, str]]:
             if isinstance(it, ast.Call) and isinstance(it.func, ast.Name) and it.func.id in ('list', 'tuple', 'set', 'sorted', 'reversed',
                                                                                            'frozenset', 'iter') and len(it.args) == 1:
                 it = it.args[0]
+            elif match("dict.fromkeys($x)", it):            # each element once, order kept
+                it = it.args[0]
         if isinstance(it, ast.Name) and it.id in f.params and it.id != f.self_name:
             out.append((n, it.id))
     return out
@@ -228,6 +262,70 @@ def _before_in_iteration(cfg, a, b, hdr) -> bool:
     return b.id in fwd and a.id not in back
 
 
+def _keep_sets(ctx) -> List[set]:
+    """a function of the reference tree that was moved between class and module level (`CriticalPathCalculator.__connect` ->
+    `_connect`) is a new name for sa.normalize, which therefore folds it into its callers - and the anchors of the rules
+    (connect helper, passes) are gone.  When functions of the reference tree are missing in the calculator's module, the
+    program can be parsed again with some of the new functions kept.  Returns the sets to try, in order: the new functions
+    that carry the bare name of a missing one; every new function of the module."""
+    prog = ctx.prog
+    try:
+        from sa import normalize
+        from sa.model import Program
+        base_funcs = normalize.baseline().get('functions')
+    except Exception:       # noqa: BLE001
+        return []
+    if not base_funcs:
+        return []
+    entry = prog.funcs.get(ENTRY)
+    if entry is None:
+        return []
+    ctor = _calculator_ctors(ctx.cg, entry)
+    if len(ctor) != 1:
+        return []
+    modname = ctor[0].targets[0].module.name
+    missing = [q for q in base_funcs if q.startswith(modname + '.') and q not in prog.funcs]
+    if not missing:
+        return []
+    bare = {q.split('.')[-1].lstrip('_') for q in missing}
+    overrides = {m.rel: m.src for m in prog.modules.values()}
+    overrides.update(prog.texts)
+    raw = Program(prog.repo, overrides, normalise=False)
+    new_funcs = [f for f in raw.all_funcs() if f.module.name == modname and f.qual not in base_funcs
+                 and f.kind in ('function', 'method', 'static')]
+    by_name = {f.qual for f in new_funcs if f.name.lstrip('_') in bare}
+    every = {f.qual for f in new_funcs}
+    out = []
+    if by_name:
+        out.append(by_name)
+    if every and every != by_name:
+        out.append(every)
+    return out
+
+
+def _reparse_keeping(ctx, keep: set):
+    """ctx.prog / typer / cg for the same sources, normalised with the functions `keep` left unfolded"""
+    from sa import normalize
+    from sa.model import Program
+    from sa.types import Typer, CallGraph
+    prog = ctx.prog
+    base_funcs = normalize.baseline()['functions']
+    overrides = {m.rel: m.src for m in prog.modules.values()}
+    overrides.update(prog.texts)
+    added = keep - base_funcs
+    base_funcs |= added
+    try:
+        new = Program(prog.repo, overrides)
+    finally:
+        base_funcs -= added
+    new._c12_protected = set(keep)
+    new.normalisation_log = list(new.normalisation_log) + [f"c12: kept new helper {q} (a function of the reference tree is missing)"
+                                                           for q in sorted(keep)]
+    ctx.prog = new
+    ctx.typer = Typer(new)
+    ctx.cg = CallGraph(new, ctx.typer)
+
+
 def _hoist(ctx):
     """before anything of the calculator is analysed: helpers that the reference tree does not have and that are called inside
     an expression (`for n in self.__nodes + [self.__attach_terminal_nodes()]`) are spliced into their callers, so that the
@@ -244,12 +342,12 @@ def _hoist(ctx):
     if not base_funcs:
         return
     entry = prog.func(ENTRY)
-    ctor = [ci for ci in cg.calls_in(entry) if ci.kind == 'ctor' and ci.targets]
+    ctor = _calculator_ctors(cg, entry)
     if len(ctor) != 1:
         return
     init = ctor[0].targets[0]
     hosts = [f for f in prog.all_funcs() if f.module is init.module and f.cls == init.cls and f.kind in ('method', 'static')]
-    log = U.hoist_helpers(prog, hosts, init.cls, init.module, base_funcs)
+    log = U.hoist_helpers(prog, hosts, init.cls, init.module, set(base_funcs) | set(getattr(prog, '_c12_protected', ())))
     if log:
         # nothing of the hosts has been analysed yet at this point; drop whatever an engine cache may hold all the same
         import sa.cfg as _cfgm
@@ -266,12 +364,30 @@ def _hoist(ctx):
 def check(ctx):
     ctx.assume("the WBS is acyclic (quantifier of C12); Task.all_parents / predecessors / children are the relations of C01")
     ctx.assume("term expansion assumes no aliasing writes between a definition and its use inside one function")
+    R = None
+    first_error = None
     try:
         _hoist(ctx)
         R = Roles(ctx)
     except AnalysisError as e:
+        first_error = e
+    if R is None:
+        # anchors not found: a helper of the reference tree may have been moved (and then folded away by the normaliser)
+        try:
+            attempts = _keep_sets(ctx)
+        except AnalysisError:
+            attempts = []
+        for keep in attempts:
+            try:
+                _reparse_keeping(ctx, keep)
+                _hoist(ctx)
+                R = Roles(ctx)
+                break
+            except AnalysisError:
+                R = None
+    if R is None:
         o = ctx.ob('no-float-eq', 'R8', "calculator anchors", floor=1)
-        o.fail(str(e))
+        o.fail(str(first_error))
         return
 
     model: Dict[str, object] = {}
@@ -307,6 +423,8 @@ def check(ctx):
                    "leaf (the summary early-return cannot skip it), the table is keyed alike on both sides and written "
                    "unconditionally; a task is inserted once", floor=5)
     guarded(o_inh, lambda o: _inherit_registered(ctx, R, model, o_inh, o_reg))
+    if not o_inh.error:
+        guarded(o_inh, lambda o: _entry_shortcuts(ctx, R, o))
     if o_inh.error and not o_reg.error:
         o_reg.fail(o_inh.error)
 
@@ -447,7 +565,8 @@ def _leaf_arcs(ctx, R: Roles, model, o):
     for st, table, key, val in stores:
         v = exa.expand(val, acfg.node_of(st))
         if isinstance(v, ast.Call) and any(c is val or same(c, v) for c in R.calls_to(add, con)) or \
-                (isinstance(v, ast.Call) and isinstance(v.func, ast.Attribute) and unmangle(v.func.attr) == con.name):
+                (isinstance(v, ast.Call) and isinstance(v.func, ast.Attribute) and unmangle(v.func.attr) == con.name) or \
+                (isinstance(v, ast.Call) and isinstance(v.func, ast.Name) and con.cls is None and v.func.id == con.name):
             arc_store = (st, table, key, v)
     if arc_store is None:
         o.undecided(add, add.node, add.name, "no `self.<table>[id] = <link built by the connect helper>` store found")
@@ -690,6 +809,11 @@ def _leaf_arcs(ctx, R: Roles, model, o):
     unclear = []            # (call, why)
     exi = Expander(prog, init, ctx.typer, inline=False)
     tasks_attr = model.get('tasks_attr')
+    end_attr_ = None
+    for st_, tgt_, val_ in facts.attr_stores(init):
+        if isinstance(val_, ast.Name) and val_.id == end_p and isinstance(tgt_.value, ast.Name) and tgt_.value.id == init.self_name \
+                and not icfg.conditions(icfg.node_of(st_)) and not icfg.enclosing_fors(icfg.node_of(st_)):
+            end_attr_ = tgt_.attr
 
     def all_tasks(it, depth=0) -> bool:
         """the iterable is the whole tasks parameter when no end date was given"""
@@ -716,9 +840,9 @@ def _leaf_arcs(ctx, R: Roles, model, o):
         lv_ = fors[-1].target.id
         cs = []
         for t, p in facts.node_conditions(prog, init, c, ctx.typer, expand=False):
-            cs += facts.split_conj(t, p)
+            cs += facts.split_conj(_reduce_when_none(t, end_p, end_attr_), p)
         # dead when no end date was given?
-        if any((lambda nt: nt and isinstance(nt[0], ast.Name) and nt[0].id == end_p and not nt[1])(none_test(t, p)) for t, p in cs):
+        if any(_dead_when_none(t, p, end_p, end_attr_) for t, p in cs):
             continue
         try:
             itx = exi.expand(fors[-1].iter, icfg.node_of(fors[-1]))
@@ -735,7 +859,7 @@ def _leaf_arcs(ctx, R: Roles, model, o):
             mt_ = _member_test(t, p, lv_)
             if mt_ and not mt_[3] and mt_[1] == tasks_attr:
                 continue        # `if t.id not in self.<tasks>`: the insert's own "already inserted" test moved to the call site
-            if _conds_hold_when_none([(t, p)], end_p):
+            if _conds_hold_when_none([(t, p)], end_p, end_attr_):
                 continue
             rest.append((t, p))
         if not rest:
@@ -804,21 +928,53 @@ def _task_selection(tv: ast.AST, self_e: str):
         unknown = unknown or a
     if unknown is not None:
         return 'unknown', src(tv), unknown
-    return 'ok', f"every task of {self_e}.tasks" + (" that has no children" if atoms else ""), None
+    return 'ok', f"every task of {self_e}.tasks" + (" that has no children" if atoms else ""), ('leaf-only' if atoms else None)
 
 
-def _conds_hold_when_none(conds, end_p) -> bool:
+def _is_end(e: ast.AST, end_p, end_attr=None) -> bool:
+    """the end_date parameter of the constructor, or the calculator field it is copied to"""
+    return (isinstance(e, ast.Name) and e.id == end_p) or bool(end_attr and match(f"self.{end_attr}", e))
+
+
+def _conds_hold_when_none(conds, end_p, end_attr=None) -> bool:
     """all path conditions are implied by `end_p is None`"""
     def implied(t, p) -> bool:
+        if isinstance(t, ast.Constant) and isinstance(t.value, bool):
+            return t.value == p
         if isinstance(t, ast.UnaryOp) and isinstance(t.op, ast.Not):
             return implied(t.operand, not p)
         if isinstance(t, ast.BoolOp):
             conj = isinstance(t.op, ast.And) == p      # (a and b) true / (a or b) false: every part needed
             parts = [implied(v, p) for v in t.values]
             return all(parts) if conj else any(parts)
+        if isinstance(t, ast.IfExp):
+            # `True if self.<end> is None else t.end == self.<end>` (a folded predicate helper): the branch taken without end date
+            nt_ = none_test(t.test, True)
+            if nt_ and _is_end(nt_[0], end_p, end_attr):
+                return implied(t.body if nt_[1] else t.orelse, p)
+            return False
         nt = none_test(t, p)
-        return bool(nt and isinstance(nt[0], ast.Name) and nt[0].id == end_p and nt[1])
+        return bool(nt and _is_end(nt[0], end_p, end_attr) and nt[1])
     return all(implied(t, p) for t, p in conds)
+
+
+def _reduce_when_none(t: ast.AST, end_p, end_attr=None) -> ast.AST:
+    """the condition as it reads when no end date was given: `A if <end> is None else B` -> A (inside not / and / or too)"""
+    if isinstance(t, ast.IfExp):
+        nt = none_test(t.test, True)
+        if nt and _is_end(nt[0], end_p, end_attr):
+            return _reduce_when_none(t.body if nt[1] else t.orelse, end_p, end_attr)
+        return t
+    if isinstance(t, ast.UnaryOp) and isinstance(t.op, ast.Not):
+        return ast.copy_location(ast.UnaryOp(op=ast.Not(), operand=_reduce_when_none(t.operand, end_p, end_attr)), t)
+    if isinstance(t, ast.BoolOp):
+        return ast.copy_location(ast.BoolOp(op=t.op, values=[_reduce_when_none(v, end_p, end_attr) for v in t.values]), t)
+    return t
+
+
+def _dead_when_none(t, p, end_p, end_attr=None) -> bool:
+    """the condition cannot hold when no end date was given"""
+    return _conds_hold_when_none([(t, not p)], end_p, end_attr)
 
 
 def _default_zero(e: ast.AST, task_p: str) -> Optional[Tuple[str, str]]:
@@ -841,9 +997,44 @@ def _default_zero(e: ast.AST, task_p: str) -> Optional[Tuple[str, str]]:
 
 
 def _work_term(wt: ast.AST, task_p: str) -> Tuple[str, str]:
+    # `<C> if task.<other attribute> else <work term>`: the duration of some tasks does not come from estimate / spent at all
+    if isinstance(wt, ast.IfExp):
+        read = {n.attr for n in ast.walk(wt.test) if isinstance(n, ast.Attribute) and isinstance(n.value, ast.Name)
+                and n.value.id == task_p}
+        free = {n.id for n in ast.walk(wt.test) if isinstance(n, ast.Name)} - {task_p, 'len', 'bool', 'abs', 'getattr'}
+        if read and not free and not (read & {'estimate', 'spent', 'children', 'all_children'}):
+            va, vb = _work_term(wt.body, task_p), _work_term(wt.orelse, task_p)
+            if va[0] == 'ok' and vb[0] == 'ok':
+                return 'ok', ''
+            for v_, br, when in ((va, wt.body, src(wt.test)), (vb, wt.orelse, 'not ' + src(wt.test))):
+                if v_[0] != 'ok' and (facts.const_num(br) is not None or v_[0] == 'bad'):
+                    return 'bad', (f"for a task with `{when[:60]}` the length of the arc is `{src(br)[:60]}`"
+                                   + (f" ({v_[1]})" if v_[0] == 'bad' else '') +
+                                   f": every leaf lasts max(estimate - spent, 0), whatever its {', '.join(sorted(read))}")
+            return 'unknown', "work term depends on `" + src(wt.test)[:60] + "` in a way the rule cannot judge"
+    # `0 if task.estimate is None else max(task.estimate - .., 0)`: without an estimate nothing remains (spent is not negative)
+    if isinstance(wt, ast.IfExp):
+        nt = none_test(wt.test, True)
+        if nt and match(f"{task_p}.estimate", nt[0]):
+            when_none, other = (wt.body, wt.orelse) if nt[1] else (wt.orelse, wt.body)
+            if facts.const_num(when_none) == 0:
+                class _Def(ast.NodeTransformer):
+                    def visit_Attribute(self, n):
+                        if match(f"{task_p}.estimate", n):
+                            return ast.BoolOp(op=ast.Or(), values=[n, ast.Constant(value=0)])
+                        return self.generic_visit(n)
+                import copy as _copy
+                return _work_term(_Def().visit(_copy.deepcopy(other)), task_p)
     inner = None
     clamp = None
-    m = match("max($a, $b)", wt)
+    # `E - S if E > S else 0`
+    for pat in ("$x - $y if $x > $y else $z", "$x - $y if $x >= $y else $z", "$z if $x <= $y else $x - $y", "$z if $x < $y else $x - $y",
+                "$x - $y if $y < $x else $z", "$x - $y if $y <= $x else $z", "$z if $y >= $x else $x - $y", "$z if $y > $x else $x - $y"):
+        m = match(pat, wt)
+        if m and facts.const_num(m['z']) is not None:
+            inner, clamp = ast.BinOp(left=m['x'], op=ast.Sub(), right=m['y']), facts.const_num(m['z'])
+            break
+    m = match("max($a, $b)", wt) if inner is None else None
     if m:
         ca, cb = facts.const_num(m['a']), facts.const_num(m['b'])
         if cb is not None and ca is None:
@@ -1301,6 +1492,43 @@ def _member_test(t: ast.AST, pol: bool, var: Optional[str] = None):
     return m['x'].id, m['tab'], m['k'], member
 
 
+def _entry_shortcuts(ctx, R: Roles, o):
+    """returns of WBS.critical_path that do not come from the calculator: a shortcut taken when "there are no dependencies"
+    must look at the dependencies of the summary tasks too (they bind all their leaves)"""
+    prog, entry = ctx.prog, R.entry
+    ecfg = cfg_of(entry)
+    ex = Expander(prog, entry, ctx.typer, inline=False)
+    self_e = entry.self_name
+    for r in [n for n in walk_no_nested(entry.node) if isinstance(n, ast.Return) and n.value is not None]:
+        rn = ecfg.node_of(r)
+        if rn is None or not ecfg.is_reachable(rn):
+            continue
+        v = ex.expand(r.value, rn)
+        if any(isinstance(n, ast.Call) and getattr(n.func, 'id', None) == R.cls for n in ast.walk(v)):
+            continue                    # built by the calculator
+        for t, p in ecfg.conditions(rn):
+            tn = ecfg.node_containing(t)
+            te = ex.expand(t, tn) if tn is not None else t
+            for comp in [n for n in ast.walk(te) if isinstance(n, (ast.GeneratorExp, ast.ListComp, ast.SetComp))]:
+                if len(comp.generators) != 1 or not isinstance(comp.generators[0].target, ast.Name):
+                    continue
+                g = comp.generators[0]
+                var = g.target.id
+                sel = _task_selection(g.iter, self_e)
+                if not sel or sel[0] != 'ok' or sel[2] != 'leaf-only':
+                    continue
+                body = [comp.elt] + list(g.ifs)
+                reads = {n.attr for b in body for n in ast.walk(b) if isinstance(n, ast.Attribute) and isinstance(n.value, ast.Name)
+                         and n.value.id == var}
+                if reads & {'predecessors', 'successors', 'all_predecessors', 'all_successors'} and \
+                        not reads & {'all_parents', 'parent'}:
+                    dep = sorted(reads & {'predecessors', 'successors', 'all_predecessors', 'all_successors'})[0]
+                    o.refute(entry, r, comp, f"WBS.critical_path returns `{src(r.value)[:60]}` without building the network when "
+                                             f"`{'' if p else 'not '}{src(t)[:70]}`; that test reads `.{dep}` of the tasks without "
+                                             f"children only, so dependencies declared on summary tasks (which bind all their "
+                                             f"leaves) are ignored on this path")
+
+
 def _test_of(cfg, ret: ast.Return):
     """the test expression of the branch that leads to this return"""
     n = cfg.node_of(ret)
@@ -1410,6 +1638,28 @@ def _passes(ctx, R: Roles, model, o, o_eq):
         lv = loop.target.id if isinstance(loop.target, ast.Name) else '?'
         m = match(f"self.{links_attr}[{lv}].$side", s) if s is not None else None
         uc = facts.const_num(u) if u is not None else None
+        # conditions inside the loop: every predecessor must be linked
+        lhdr = acfg.node_of(loop)
+        cn_ = acfg.node_containing(c)
+        inner = []
+        for t_, p_ in acfg.conditions(cn_):
+            tn_ = acfg.node_containing(t_)
+            if tn_ is not None and lhdr is not None and acfg.dominates(lhdr, tn_) and tn_ is not lhdr:
+                inner += facts.split_conj(exa.expand(t_, tn_), p_)
+        skipped = False
+        for t_, p_ in inner:
+            reads_link = any(match(f"self.{links_attr}[{lv}].$f", x) or match(f"self.{links_attr}[{lv}].$f.$g", x) for x in ast.walk(t_))
+            names_ = {x.id for x in ast.walk(t_) if isinstance(x, ast.Name)} - {'self', lv, 'len', 'abs', 'bool'}
+            skipped = True
+            if reads_link and not names_:
+                o.refute(add, c, t_, f"the dependency arc of a predecessor is added only when `{'' if p_ else 'not '}{src(t_)[:70]}`: a "
+                                     f"predecessor that fails the test is not linked, so the task no longer waits for it nor for what "
+                                     f"that predecessor waits for (the chain through it is cut)")
+            else:
+                o.undecided(add, c, t_, f"the dependency arc is added under a condition the rule cannot judge: "
+                                        f"{'' if p_ else 'not '}{src(t_)[:70]}")
+        if skipped:
+            continue
         if m and m['side'] == 'end' and e is not None and arc_start is not None and same(e, arc_start) and uc == 0:
             o.site(add, c, f"dependency arc {src(s)} -> {src(e)} with 0 units")
         elif m and m['side'] == 'start':
@@ -1664,7 +1914,7 @@ def _link_atom(a: str, lv: str) -> bool:
 
 
 def _pass_field(p: Func) -> Optional[str]:
-    node_p = p.params[1] if len(p.params) > 1 else None
+    node_p = _node_param(p)
     attrs = {tgt.attr for st, tgt, val in facts.attr_stores(p) if isinstance(tgt.value, ast.Name) and tgt.value.id == node_p}
     return next(iter(attrs)) if len(attrs) == 1 else None
 
@@ -1673,7 +1923,7 @@ def _check_pass(ctx, R, o, p: Func, what: str, field, op, links, far, sign, othe
     """fold shape of one pass: node.<field> = op over node.<links> of link.<far>.<field> (+/-) link.units"""
     prog = ctx.prog
     cfg = cfg_of(p)
-    node_p = p.params[1]
+    node_p = _node_param(p)
     stores = [(st, val) for st, tgt, val in facts.attr_stores(p, field) if isinstance(tgt.value, ast.Name) and tgt.value.id == node_p]
     # guard clause for the node without links: `if len(node.<links>) == 0: node.<field> = D; return` next to the fold
     empty_store = None
@@ -2143,6 +2393,23 @@ def _pure(ctx, R: Roles, o):
             continue
         fresh_calc = isinstance(v, ast.Call) and isinstance(v.func, ast.Attribute) and isinstance(v.func.value, ast.Call) \
             and getattr(v.func.value.func, 'id', None) == R.cls and unmangle(v.func.attr) == R.calc.name
+
+        def tasks_empty(t_, p_):
+            """True / False when the condition says self.tasks (or self.roots) is / is not empty, None otherwise"""
+            et_ = empty_test(exe.expand(t_, ecfg.node_containing(t_)) if ecfg.node_containing(t_) is not None else t_, p_)
+            if et_ and (match(f"{entry.self_name}.tasks", et_[0]) or match(f"{entry.self_name}.roots", et_[0])):
+                return et_[1]
+            return None
+        conds_r = ecfg.conditions(rn)
+        # `if not self.tasks: return _ImmutableTaskList([])` - an empty WBS has an empty critical path
+        if conds_r and all(tasks_empty(t_, p_) is not None for t_, p_ in conds_r):
+            if fresh_calc and all(tasks_empty(t_, p_) is False for t_, p_ in conds_r):
+                o.site(entry, r, f"returns {src(v)[:80]} for every WBS that has a task")
+                continue
+            if v is not None and any(tasks_empty(t_, p_) for t_, p_ in conds_r) and (
+                    match("_ImmutableTaskList([])", v) or match("[]", v) or match("_ImmutableTaskList(list())", v)):
+                o.site(entry, r, "empty result for a WBS without tasks")
+                continue
         if fresh_calc and not ecfg.conditions(rn):
             o.site(entry, r, f"returns {src(v)[:80]}: computed from the current graph on every call")
         elif fresh_calc:
